@@ -3,7 +3,7 @@
 The encryption cases are first run on the real library (presample); their ciphertexts are then parsed,
 decrypted with right and wrong keys, truncated, extended and bit-flipped.  Key pairs are made with the small
 pure-Python secp256k1 of c08.py (generator side only)."""
-from .c08 import ec_mul, G, N, P, ser_pub
+from .c08 import ec_mul, ec_add, G, N, P, ser_pub, b58check
 
 ID = "C11"
 LEVEL = "proof"
@@ -28,6 +28,31 @@ KEYS = [0x1111111111111111111111111111111111111111111111111111111111111111,
         N - 2]
 
 
+# key pairs (sender, recipient) whose ECDH shared x-coordinate starts with one / two zero bytes (found once with
+# search_shared below; the thorough tier searches further ones): the SHA-512 preimage must keep the zeros
+LEADING_ZERO_PAIRS = [
+    (0x300000000000000000000000000000000000000000000000000000000000001f, 0x2222222222222222222222222222222222222222222222222222222222222222),
+    (0x400000000000000000000000000000000000000000000000000000000001017c, 0x2222222222222222222222222222222222222222222222222222222222222222),
+    (0x30000000000000000000000000000000000000000000000000000000000000ab, 0x1111111111111111111111111111111111111111111111111111111111111111),
+    (0x400000000000000000000000000000000000000000000000000000000001db9a, 0x1111111111111111111111111111111111111111111111111111111111111111),
+]
+
+
+def search_shared(b, nz, start, limit=2 * 10 ** 6):
+    """first a >= start with the x-coordinate of a*(b*G) below 2^(256 - 8 nz)"""
+    B = ec_mul(b, G)
+    S, a = ec_mul(start, B), start
+    while a < start + limit:
+        if S is not None and S[0] >> (256 - 8 * nz) == 0:
+            return a
+        S = ec_add(S, B); a += 1
+    return None
+
+
+def wif(k, comp):
+    return b58check(b"\x80" + k.to_bytes(32, "big") + (b"\x01" if comp else b"")).encode().hex()
+
+
 def kh(k):
     return "%064x" % k
 
@@ -45,21 +70,47 @@ def msg_desc(rng, n):
 def enc_cases(rng, tier):
     quick = tier == "quick"
     out = []
+    E = lambda a, comp, bp, m, excl: out.append(("ecies.encrypt", [kh(a), str(comp), bp, m, str(excl)]))
     a, b = KEYS[0], KEYS[1]
-    for n in [0, 1, 15, 16, 17, 31, 32]:
+    for i, n in enumerate([0, 1, 15, 16, 17, 31, 32]):
         for excl in (0, 1):
-            out.append(("ecies.encrypt", [kh(a), pub(b), msg_desc(rng, n), str(excl)]))
+            E(a, (i + excl) % 2, pub(b), msg_desc(rng, n), excl)      # sender flagged compressed / uncompressed alternately
     more = [33, 48, 100, 1024] if quick else [33, 47, 48, 63, 64, 65, 100, 255, 256, 1000, 1024, 4096, 8192]
     for n in more:
-        out.append(("ecies.encrypt", [kh(rng.choice(KEYS)), pub(rng.choice(KEYS), rng.random() < 0.7), msg_desc(rng, n), str(rng.randrange(2))]))
-    out.append(("ecies.encrypt", [kh(KEYS[3]), pub(KEYS[2], False), msg_desc(rng, 20), "0"]))
-    out.append(("ecies.encrypt", [kh(a), pub(a), msg_desc(rng, 5), "0"]))          # to oneself
-    out.append(("ecies.encrypt", [kh(b), pub(a), "l:7:20480", "0"]))
+        E(rng.choice(KEYS), rng.randrange(2), pub(rng.choice(KEYS), rng.random() < 0.7), msg_desc(rng, n), rng.randrange(2))
+    E(KEYS[3], 0, pub(KEYS[2], False), msg_desc(rng, 20), 0)
+    E(a, 1, pub(a), msg_desc(rng, 5), 0)          # to oneself
+    E(b, 1, pub(a), "l:7:20480", 0)
+    # sender key flagged uncompressed (compress_public_key(false) / uncompressed WIF), key included: the embedded key
+    # must still be the 33-byte form; recipient given in both encodings
+    for comp in (0, 1):
+        for bcomp in (True, False):
+            E(KEYS[2], comp, pub(b, bcomp), msg_desc(rng, 7), 0)
+        out.append(("ecies.encrypt_wif", [wif(KEYS[1], bool(comp)), pub(a, bool(comp)), msg_desc(rng, 9), "0"]))
+        out.append(("ecies.encrypt_wif", [wif(KEYS[3], bool(comp)), pub(a), msg_desc(rng, 18), "1"]))
+    out.append(("ecies.encrypt_wif", [wif(KEYS[1], True)[:-2] + "00", pub(a), "00", "0"]))     # broken WIF
+    # shared x-coordinate with leading zero bytes
+    pairs = list(LEADING_ZERO_PAIRS)
     if not quick:
-        out.append(("ecies.encrypt", [kh(b), pub(a), "l:8:20479", "1"]))
+        for nz, st in ((1, rng.randrange(1, N - 10 ** 7)), (1, rng.randrange(1, N - 10 ** 7)), (2, rng.randrange(1, N - 10 ** 7))):
+            bb = rng.randrange(1, N)
+            aa = search_shared(bb, nz, st)
+            if aa:
+                pairs.append((aa, bb))
+    for (aa, bb) in pairs:
+        KNOWN_PRIV[pub(bb)] = bb; KNOWN_PRIV[pub(bb, False)] = bb
+        E(aa, 1, pub(bb), msg_desc(rng, 11), 0)
+        E(aa, 0, pub(bb, False), msg_desc(rng, 16), 1)
+        E(bb, 1, pub(aa), msg_desc(rng, 3), 0)        # the other direction: same shared point
+        KNOWN_PRIV[pub(aa)] = aa
+    if not quick:
+        E(b, 0, pub(a), "l:8:20479", 1)
         for _ in range(20):
-            out.append(("ecies.encrypt", [kh(rng.randrange(1, N)), pub(rng.randrange(1, N)), msg_desc(rng, rng.randrange(0, 80)), str(rng.randrange(2))]))
+            E(rng.randrange(1, N), rng.randrange(2), pub(rng.choice(KEYS)), msg_desc(rng, rng.randrange(0, 80)), rng.randrange(2))
     return out
+
+
+KNOWN_PRIV = {}
 
 
 def presample(rng, tier):
@@ -74,23 +125,23 @@ def generate(rng, tier, pre=None):
     sers = []     # (a, bpubhex, ser bytes, excl)
     for (op, args), out in pre:
         A(op, args)
-        if out.startswith("OK:"):
+        if op == "ecies.encrypt" and out.startswith("OK:"):
             f = out[3:].split(";")[0]
             if not f.startswith("#"):
-                sers.append((args[0], args[1], bytes.fromhex(f), args[3] == "1"))
-    priv_of_pub = {}
+                sers.append((args[0], args[2], bytes.fromhex(f), args[4] == "1"))
+    priv_of_pub = dict(KNOWN_PRIV)
     for k in KEYS:
         priv_of_pub[pub(k)] = k; priv_of_pub[pub(k, False)] = k
     a0, b0 = KEYS[0], KEYS[1]
 
     # invalid key arguments
     x_off = next(x for x in range(5, 200) if pow((x ** 3 + 7) % P, (P - 1) // 2, P) != 1)
-    A("ecies.encrypt", ["00" * 32, pub(b0), "00", "0"])
-    A("ecies.encrypt", [kh(N), pub(b0), "00", "0"])
-    A("ecies.encrypt", ["11" * 31, pub(b0), "00", "0"])
-    A("ecies.encrypt", [kh(a0), "02" + "%064x" % x_off, "00", "0"])
-    A("ecies.encrypt", [kh(a0), "00", "00", "0"])
-    A("ecies.encrypt", [kh(a0), "05" + pub(b0)[2:], "00", "0"])
+    A("ecies.encrypt", ["00" * 32, "1", pub(b0), "00", "0"])
+    A("ecies.encrypt", [kh(N), "1", pub(b0), "00", "0"])
+    A("ecies.encrypt", ["11" * 31, "0", pub(b0), "00", "0"])
+    A("ecies.encrypt", [kh(a0), "1", "02" + "%064x" % x_off, "00", "0"])
+    A("ecies.encrypt", [kh(a0), "0", "00", "00", "0"])
+    A("ecies.encrypt", [kh(a0), "1", "05" + pub(b0)[2:], "00", "0"])
 
     # decrypt / tamper on the real ciphertexts
     for si, (ah, bp, ser, excl) in enumerate(sers):
@@ -110,6 +161,11 @@ def generate(rng, tier, pre=None):
         if not short:
             continue
         nbits = len(ser) * 8
+        if quick and si >= 16:
+            # the later (key-encoding / leading-zero) ciphertexts: right-key decryption above plus two flips
+            for bit in (rng.randrange(32, nbits - 256), rng.randrange(nbits - 256, nbits)):
+                A("ecies.flip", [kh(b), ap, ser.hex(), haspk, str(bit)])
+            continue
         if quick:
             regions = [(0, 32)]
             o = 32
@@ -167,7 +223,7 @@ def search_cases(rng, broken):
     out = []
     for n in (0, 1, 16, 33):
         for excl in (0, 1):
-            out.append(("ecies.encrypt", [kh(KEYS[0]), pub(KEYS[1]), msg_desc(rng, n), str(excl)]))
+            out.append(("ecies.encrypt", [kh(KEYS[0]), str(excl), pub(KEYS[1]), msg_desc(rng, n), str(excl)]))
         out.append(("ecies.self", [kh(KEYS[0]), "1", msg_desc(rng, n)]))
     for n in (35, 36, 37, 68, 69, 70):
         out.append(("ecies.parse", ["42494531" + "+r:01:%d" % (n - 4), "0"]))
